@@ -164,6 +164,7 @@ func (c *connection) Release() (err error) {
 	// Check inputBuffer length first to reduce contention in mux situation.
 	// c.operator.do competes with c.inputs/c.inputAck
 	if c.inputBuffer.Len() == 0 && c.operator.do() {
+		verifPoint(vpReleaseTokenTaken, c, 0)
 		maxSize := c.inputBuffer.calcMaxSize()
 		// Set the maximum value of maxsize equal to mallocMax to prevent GC pressure.
 		if maxSize > mallocMax {
@@ -177,6 +178,7 @@ func (c *connection) Release() (err error) {
 		if c.inputBuffer.Len() == 0 {
 			c.inputBuffer.resetTail(c.maxSize)
 		}
+		verifPoint(vpReleaseBeforeDone, c, 0)
 		c.operator.done()
 	}
 	return c.inputBuffer.Release()
@@ -424,11 +426,15 @@ func (c *connection) initFDOperator() {
 
 func (c *connection) initFinalizer() {
 	c.AddCloseCallback(func(connection Connection) (err error) {
+		verifPoint(vpFinalizerEnter, c, 0)
 		c.stop(flushing)
+		verifPoint(vpFinalizerAfterStop, c, 0)
 		c.operator.Free()
+		verifPoint(vpFinalizerAfterFree, c, 0)
 		if err = c.netFD.Close(); err != nil {
 			logger.Printf("NETPOLL: netFD close failed: %v", err)
 		}
+		verifPoint(vpFinalizerAfterClose, c, 0)
 		c.closeBuffer()
 		return nil
 	})
@@ -455,6 +461,7 @@ func (c *connection) waitRead(n int) (err error) {
 	}
 	atomic.StoreInt64(&c.waitReadSize, int64(n))
 	defer atomic.StoreInt64(&c.waitReadSize, 0)
+	verifPoint(vpWaitReadPublished, c, n)
 	if dl := c.readDeadline; dl > 0 {
 		timeout := time.Duration(dl - time.Now().UnixNano())
 		if timeout <= 0 {
@@ -472,7 +479,9 @@ func (c *connection) waitRead(n int) (err error) {
 		case user:
 			return Exception(ErrConnClosed, "wait read")
 		default:
+			verifPoint(vpWaitReadBeforeBlock, c, n)
 			err = <-c.readTrigger
+			verifPoint(vpWaitReadWoke, c, n)
 			if err != nil {
 				return err
 			}
@@ -500,14 +509,17 @@ func (c *connection) waitReadWithTimeout(n int, timeout time.Duration) (err erro
 			err = Exception(ErrConnClosed, "wait read")
 			goto RET
 		default:
+			verifPoint(vpWaitReadTOBeforeSelect, c, n)
 			select {
 			case <-c.readTimer.C:
+				verifPoint(vpWaitReadTOTimer, c, n)
 				// double check if there is enough data to be read
 				if c.inputBuffer.Len() >= n {
 					return nil
 				}
 				return Exception(ErrReadTimeout, c.remoteAddr.String())
 			case err = <-c.readTrigger:
+				verifPoint(vpWaitReadTOTrigger, c, n)
 				if err != nil {
 					goto RET
 				}
@@ -516,6 +528,7 @@ func (c *connection) waitReadWithTimeout(n int, timeout time.Duration) (err erro
 		}
 	}
 RET:
+	verifPoint(vpWaitReadTORet, c, n)
 	// clean timer.C
 	if !c.readTimer.Stop() {
 		<-c.readTimer.C
@@ -530,6 +543,7 @@ func (c *connection) flush() error {
 	}
 	bs := c.outputBuffer.GetBytes(c.outputBarrier.bs)
 	n, err := sendmsg(c.fd, bs, c.outputBarrier.ivs, false)
+	verifPoint(vpFlushAfterSend, c, n)
 	if err != nil && err != syscall.EAGAIN {
 		return Exception(err, "when flush")
 	}
@@ -544,7 +558,9 @@ func (c *connection) flush() error {
 	if c.outputBuffer.IsEmpty() {
 		return nil
 	}
+	verifPoint(vpFlushBeforeR2RW, c, 0)
 	err = c.operator.Control(PollR2RW)
+	verifPoint(vpFlushAfterR2RW, c, 0)
 	if err != nil {
 		return Exception(err, "when flush")
 	}
@@ -561,6 +577,7 @@ func (c *connection) waitFlush() (err error) {
 		}
 	}
 	if timeout == 0 {
+		verifPoint(vpWaitFlushBeforeBlock, c, 0)
 		return <-c.writeTrigger
 	}
 
@@ -571,13 +588,16 @@ func (c *connection) waitFlush() (err error) {
 		c.writeTimer.Reset(timeout)
 	}
 
+	verifPoint(vpWaitFlushBeforeSelect, c, 0)
 	select {
 	case err = <-c.writeTrigger:
+		verifPoint(vpWaitFlushTrigger, c, 0)
 		if !c.writeTimer.Stop() { // clean timer
 			<-c.writeTimer.C
 		}
 		return err
 	case <-c.writeTimer.C:
+		verifPoint(vpWaitFlushTimer, c, 0)
 		select {
 		// try fetch writeTrigger if both cases fires
 		case err = <-c.writeTrigger:
